@@ -201,6 +201,11 @@ def problem(draw, kinds=("closure", "free", "const"), nmin=2, nmax=10, nzmax=12,
     H = float(z[-1] - z[0])
     nx = draw(st.integers(nmin, nmax))
     ny = draw(st.integers(nmin, nmax))
+    if draw(st.integers(0, 6)) == 0:
+        # now and then a larger size with a large prime factor (17, 19, 23, 29, 31, 34, 37, 38 ...): FFT libraries and
+        # "fast length" helpers treat those differently from the small smooth sizes
+        nx = draw(st.sampled_from([17, 19, 23, 29, 31, 34, 37, 38, nx]))
+        ny = draw(st.sampled_from([ny, 17, 19, 23, ny, 29, 34]))
     dx = H * draw(logfl(0.3, 12.0))
     if draw(fl(0.0, 1.0)) < square_cells:
         dy = dx
